@@ -16,7 +16,12 @@ func buildState(ctx sdk.Context, k Keeper) {
 	if verifThorough() {
 		m = 2
 	}
-	nb := verifSymLen("shape.bridges", 0, m)
+	buildStateShape(ctx, k, 0, m, m)
+}
+
+// buildStateShape: nbLo..nbHi bridges, at most m entries per per-bridge collection
+func buildStateShape(ctx sdk.Context, k Keeper, nbLo, nbHi, m int) {
+	nb := verifSymLen("shape.bridges", nbLo, nbHi)
 	must := func(err error) {
 		if err != nil {
 			panic(err)
@@ -104,13 +109,23 @@ func sameBridge(a, b types.Bridge) bool {
 }
 
 // C16 (L1): export -> validate -> init on a fresh chain -> export is the identity, and point queries agree.
-func Harness_C16_L1_RoundTrip() {
+func Harness_C16_L1_RoundTrip() { roundTripL1(false) }
+
+// the same round trip over exactly two bridges with at most one entry per collection each: what is exported
+// for one bridge must not leak into, or be overwritten by, what is exported for the other
+func Harness_C16_L1_TwoBridges() { roundTripL1(true) }
+
+func roundTripL1(two bool) {
 	verifConfig("emptystate", 1)
 	verifConfig("nolimit", 1)
 	verifConfig("maxlen:RegistrationFee", 1)
 	k := verifSym[Keeper]("k")
 	ctx := verifSym[sdk.Context]("ctx")
-	buildState(ctx, k)
+	if two {
+		buildStateShape(ctx, k, 2, 2, 1)
+	} else {
+		buildState(ctx, k)
+	}
 	gs := k.ExportGenesis(ctx)
 	verifAssert("an exported genesis passes the module's own validation", types.ValidateGenesis(gs, k.authKeeper.AddressCodec()) == nil)
 	ctx2 := verifFreshChain(ctx)
